@@ -66,6 +66,10 @@ func (r *TrailingWhitespaceRule) Check(ctx *linter.Context) ([]linter.Violation,
 	violations := []linter.Violation{}
 
 	for lineNum, line := range ctx.Lines {
+		// With CRLF line endings the carriage return belongs to the line
+		// terminator, not to the line
+		line = strings.TrimSuffix(line, "\r")
+
 		// Check if line has trailing whitespace
 		if len(line) == 0 {
 			continue
@@ -106,7 +110,13 @@ func (r *TrailingWhitespaceRule) Fix(content string, violations []linter.Violati
 	lines := strings.Split(content, "\n")
 
 	for i, line := range lines {
-		lines[i] = strings.TrimRight(line, " \t")
+		// Preserve the carriage return of a CRLF line ending
+		cr := ""
+		if strings.HasSuffix(line, "\r") {
+			cr = "\r"
+			line = line[:len(line)-1]
+		}
+		lines[i] = strings.TrimRight(line, " \t") + cr
 	}
 
 	return strings.Join(lines, "\n"), nil
